@@ -631,18 +631,34 @@ Proof.
   - intros a b [<-|[]] [<-|[]] _. reflexivity.
 Qed.
 
-(* F07d — tag "-" *)
+(* F07d FIXED (sanitiser fallback) — regression: tag "-" now has module/attribute `unnamed`, an
+   identifier; client.py is importable and the tag client is a property *)
 Definition s_dash : str := [45].
+Definition s_unnamed : str := [117;110;110;97;109;101;100].
+Definition s_UnnamedClass : str := [85;110;110;97;109;101;100;67;108;97;115;115].
 Definition ops_F07d : list op :=
   [ {| o_id := s_a; o_method := s_GET; o_path := s_pa; o_tags := [] |};
     {| o_id := s_b; o_method := s_POST; o_path := s_pa; o_tags := [s_dash] |} ].
 Definition key_F07d : str -> str := tbl_fun [(s_dash, [])].
+Definition attr_F07d : str -> str := tbl_fun [(s_dash, s_unnamed)].
+Definition class_F07d : str -> str := tbl_fun [(s_dash, s_UnnamedClass)].
 Definition ident_F07d (s : str) : bool := negb (is_nil s).
 
-Theorem refuted_F07d :
-  guard_F07d key_F07d ident_F07d ops_F07d = false
-  /\ props idf key_F07d key_F07d idf no_score ident_F07d ops_F07d = None.
+Theorem fixed_F07d :
+  guard_F07d attr_F07d ident_F07d ops_F07d = true
+  /\ props idf key_F07d attr_F07d class_F07d no_score ident_F07d ops_F07d
+     = Some [(s_unnamed, s_UnnamedClass ++ s_Client); (s_default, s_default ++ s_Client)].
 Proof. split; vm_compute; reflexivity. Qed.
+
+(* F07e, second witness — the fallback name collides with a tag spelled `unnamed` *)
+Definition ops_F07e2 : list op :=
+  [ {| o_id := s_a; o_method := s_GET; o_path := s_pa; o_tags := [s_dash] |};
+    {| o_id := s_b; o_method := s_POST; o_path := s_pa; o_tags := [s_unnamed] |} ].
+Theorem refuted_F07e_unnamed :
+  guard_F07e key_F07d attr_F07d class_F07d ops_F07e2 = false
+  /\ length (group key_F07d (emitted_ops idf ops_F07e2)) = 2%nat
+  /\ length (files idf key_F07d attr_F07d class_F07d no_score ops_F07e2) = 1%nat.
+Proof. repeat split; vm_compute; reflexivity. Qed.
 
 (* F07e — tags café / caf *)
 Definition s_caf : str := [99;97;102].
